@@ -39,10 +39,11 @@ def temp_mode(body):
     m = re.search(r"let\s+temp_path\s*=\s*path\.with_extension\(\s*\"(\w+)\"\s*\)\s*;", body)
     if m:
         return 0, m.group(1)
-    # append form:  let mut t = path.as_os_str().to_owned(); t.push(".tmp"); let temp_path = PathBuf::from(t);
-    m = re.search(r"as_os_str\(\)\s*\.to_(?:owned|os_string)\(\)\s*;[^;]*\.push\(\s*\"\.(\w+)\"\s*\)\s*;", body)
-    if m and re.search(r"let\s+temp_path\s*(?::\s*[\w:]+\s*)?=\s*(?:std::path::)?PathBuf::from\(", body):
-        return 1, m.group(1)
+    # append form:  let temp_path = { let mut n = path.as_os_str().to_owned(); n.push(".tmp"); PathBuf::from(n) };
+    m = re.search(r"let\s+temp_path\s*=\s*\{\s*let\s+mut\s+(\w+)\s*=\s*path\.as_os_str\(\)\s*\.to_(?:owned|os_string)\(\)\s*;"
+                  r"\s*\1\.push\(\s*\"\.(\w+)\"\s*\)\s*;\s*(?:std::path::)?PathBuf::from\(\s*\1\s*\)\s*\}\s*;", body)
+    if m:
+        return 1, m.group(2)
     raise KeyError("temp_path rule not recognised")
 
 
@@ -123,8 +124,18 @@ def generate(repo):
         if len(eps) != 1 or not m:
             raise KeyError("from_dense sparse rule shape")
         bits = struct.unpack("<I", struct.pack("<f", float(eps.pop())))[0]
-        return (bits, int(m.group(1)))
-    item("sparse_rule", (struct.unpack("<I", struct.pack("<f", 1e-6))[0], 2), sparse_rule)
+        loop = re.search(r"for\s*\(i,\s*&v\)\s*in\s*vector\.iter\(\)\.enumerate\(\)\s*\{\s*if\s+([^{]+?)\s*\{", body)
+        if not loop:
+            raise KeyError("from_dense sparse loop shape")
+        cond = loop.group(1)
+        if re.fullmatch(r"v\.to_bits\(\)\s*!=\s*0", cond):
+            keep_exact = True
+        elif re.fullmatch(r"v\.abs\(\)\s*>\s*[0-9.eE+-]+", cond):
+            keep_exact = False
+        else:
+            raise KeyError("from_dense keep condition %r" % cond)
+        return (bits, int(m.group(1)), keep_exact)
+    item("sparse_rule", (struct.unpack("<I", struct.pack("<f", 1e-6))[0], 2, True), sparse_rule)
 
     def bytes_map():
         _, body = find_fn(lib, "save_snapshot_compressed")
@@ -184,6 +195,7 @@ def generate(repo):
     text += "Definition gen_tt_min_dim : N := %d.\n" % out["tt_min_dim"]
     text += "Definition gen_sparse_eps_bits : N := %d.\n" % out["sparse_rule"][0]
     text += "Definition gen_sparse_factor : N := %d.\n" % out["sparse_rule"][1]
+    text += "Definition gen_sparse_keep_exact : bool := %s.   (* the sparse form stores every component whose bits are not +0.0 *)\n" % ("true" if out["sparse_rule"][2] else "false")
     text += "(* tensor_store/src/lib.rs save_snapshot_compressed, tensor_compress/src/{format,delta}.rs *)\n"
     text += "Definition gen_bytes_as_len_string : bool := %s.\n" % ("true" if out["bytes_as_len_string"] else "false")
     text += "Definition gen_delta_wrapping : bool := %s.\n" % ("true" if out["delta_wrapping"] else "false")
